@@ -1425,16 +1425,16 @@ def json_key(d):
 # slices added during validation (DESIGN 10.5): appended to the rules so that the evidence files describe them
 _MORE = {
     C01: "; slices: parameters as options of submit-jobs (default group), --no-distributed-submitter, batches persistently rejected by the scheduler, output directories with glob metacharacters, fork-server/fresh-interpreter twins",
-    C02: "; slices: one failure cancelling 2-3 flagged jobs that also wait for a slow job that is held running, a blocker whose command cannot be started, resubmissions",
+    C02: "; slices: one failure cancelling 2-3 flagged jobs that also wait for a slow job that is held running, a blocker whose command cannot be started, resubmissions, blockers killed by a signal, a collector stalled beyond the lock timeout inside a busy batch's node-file lock (thin)",
     C03: "; variants also with parameters as submit-jobs options, --no-distributed-submitter, glob metacharacters in the output directory, late user rounds stalled at each critical point (endgame), collection races",
-    C04: "; slice: the same rule among the jobs rerun by a resubmission (blocker fails again / succeeds)",
-    C05: "; slices: collection races, endgame (late user round stalled at its k-th critical point), resubmissions, --no-distributed-submitter",
+    C04: "; slice: the same rule among the jobs rerun by a resubmission (blocker fails again / succeeds); local mode (one queue in listing order, dependents first), signal-killed heads; fault-free runs that end incomplete are judged too (startable jobs never started)",
+    C05: "; slices: collection races, endgame (late user round stalled at its k-th critical point), resubmissions, --no-distributed-submitter; recoveries accepted at the prompt of show-status (stdin)",
     C06: "; slices: scheduler outage (all status queries of 1-2 rounds fail, nothing finishes meanwhile), limits given as submit-jobs options, local mode",
     C12: "; slices: endgame with node loss, collection race with node loss, node loss -> resubmission -> node loss",
-    C13: "; slices: resubmit-jobs -s with changed group parameters, scheduler outage during the round started by resubmit-jobs (verdict-bearing)",
-    C14: "; slice: scheduler outage followed by cancel-jobs; active batches are also taken from the scheduler's own books at the promotion of cancel-jobs",
-    C15: "; slices: full SLURM state vocabulary with user rounds (no next stage before every job of the previous one has an outcome), every sbatch of one stage rejected, submit-next-stage hit by an error and retried by the user",
-    C16: "; slices: scheduler outage while several batches run, parameters as submit-jobs options (default group)",
+    C13: "; slices: resubmit-jobs -s with changed group parameters, scheduler outage during the round started by resubmit-jobs (verdict-bearing), a groups file that does not fit the submission (command fails on its input, real command follows)",
+    C14: "; slice: scheduler outage followed by cancel-jobs; active batches are also taken from the scheduler's own books at the promotion of cancel-jobs; scancel failing for batches already gone; the completed canceled submission resubmitted by the user; a promoted cancel-jobs must mark the submission canceled",
+    C15: "; slices: full SLURM state vocabulary with user rounds (no next stage before every job of the previous one has an outcome), every sbatch of one stage rejected, submit-next-stage hit by an error and retried by the user, stages with their own teardown command (next stage only after the previous stage's teardown)",
+    C16: "; slices: scheduler outage while several batches run, parameters as submit-jobs options (default group), a lost node (forced completion with missing jobs)",
     C11: "; plus transient status-query failures and pipelines whose submit-next-stage command is hit by an error / kill and retried",
 }
 for _c, _t in _MORE.items():
